@@ -177,7 +177,7 @@ func clientScript(w *raceWorld, i int) []string {
 	note("login-new", c, l, p)
 	u, _ := w.st.Load(context.Background(), email)
 	if u != nil {
-		usr := u.(*User)
+		usr := unwrapUser(u)
 		tr = append(tr, fmt.Sprintf("final:confirmed=%v:attempts=%d:otps=%d", usr.Confirmed, usr.AttemptCount, len(splitNonEmpty(usr.OTPs))))
 	}
 	return tr
